@@ -65,6 +65,12 @@ CHECKS = {
    text="Generated-input search x exhaustive enumeration of cancellation points per input: the input is first run with a context that never fires (result must equal the context-free call; P polls are counted), then with a context that turns done at every poll index k < P, with Canceled and DeadlineExceeded, through gosqlx.ParseWithContext, Tokenizer.TokenizeContext and Parser.ParseContext: no value may be returned, the error must match exactly that context error under errors.Is, at most 3 further polls may follow, and the tokenizer/parser used must answer a depth-limit probe exactly like fresh instances.",
    note="Trusted: the library reads a context only through Err() (a Done()-based wait would not be counted); 'bounded further work' is measured in polls, not time.",
    design="4/C11"),
+ "C15": dict(
+   technique="property-based testing: generator-known name sets as the reference model (set equality both ways), metamorphic re-layout",
+   level="exploration",
+   text="Generated-input search: the statement generator records every table written in a table position (FROM, JOIN, DML targets, any nesting depth), every column reference and every function call it places; ExtractTables/TablesQualified/Columns/ColumnsQualified/Functions and ExtractMetadata must return exactly those sets - nothing missing, nothing extra (aliases, synthetic join names, string contents), no duplicates - and the same sets for a hostile re-layout of the same tokens.",
+   note="Trusted: the generator's bookkeeping; unqualified table names are compared on their last part; CTE column lists and FOR UPDATE OF names are accepted either way.",
+   design="4/C15"),
 }
 
 def main():
